@@ -732,3 +732,42 @@ theorem sim_init (ctm : Matrix) (res : List (String × CsSpec)) (hdev : devOk (i
             rw [initCsmap_proj, lookup_proj] }
 
 end PdfVerif.PathLemmas
+
+namespace PdfVerif.PathLemmas
+open PdfVerif PdfVerif.Paths PdfVerif.PathSpec PdfVerif.Gen.PathsGen
+
+/-! ### no modelled operator raises (after the integrated fix of SC/SCN/sc/scn) -/
+
+theorem setN_ok (st : IState) (b : Bool) : ∃ st', doSetColourN st b = .ok st' := by
+  unfold doSetColourN
+  simp only
+  repeat' split
+  all_goals exact ⟨_, rfl⟩
+
+theorem call_ok (k : OpK) (args : List Operand) (st : IState) : ∃ st', call k args st = .ok st' := by
+  cases k <;> simp only [call] <;> (repeat' split) <;> first | exact ⟨_, rfl⟩ | exact setN_ok _ _
+
+theorem doOp_ok (k : OpK) (st : IState) : ∃ st', doOp k st = .ok st' := by
+  unfold doOp
+  split
+  · exact ⟨_, rfl⟩
+  · split
+    · exact call_ok _ _ _
+    · simp only
+      split
+      · exact call_ok _ _ _
+      · exact ⟨_, rfl⟩
+
+theorem execute_ok (toks : List Tok) (st : IState) : ∃ st', execute toks st = .ok st' := by
+  induction toks generalizing st with
+  | nil => exact ⟨st, rfl⟩
+  | cons t rest ih =>
+    have hs : ∃ s1, step st t = .ok s1 := by
+      cases t with
+      | operand o => exact ⟨_, rfl⟩
+      | op k => exact doOp_ok k st
+    obtain ⟨s1, h1⟩ := hs
+    simp only [execute, h1]
+    exact ih s1
+
+end PdfVerif.PathLemmas
